@@ -956,48 +956,6 @@ Definition spec_idx (we re : env) (w : schema) (rbs : list schema) : option nat 
   end.
 
 
-(* positions of find_branch / reader_branch *)
-Fixpoint find_branch_idx (mt : schema -> rres bool) (bs : list schema) : rres (option nat) :=
-  match bs with
-  | [] => ROk None
-  | b :: bs => let+ x := mt b in if x then ROk (Some O) else let+ k := find_branch_idx mt bs in ROk (option_map S k)
-  end.
-
-Definition reader_branch_idx (mt : nat -> schema -> rres bool) (bs : list schema) : rres (option nat) :=
-  let+ x := find_branch_idx (mt 0%nat) bs in
-  match x with
-  | Some k => ROk (Some k)
-  | None => let+ x := find_branch_idx (mt 1%nat) bs in
-            match x with
-            | Some k => ROk (Some k)
-            | None => find_branch_idx (mt 2%nat) bs
-            end
-  end.
-
-Definition pick_ok (code : rres (option nat)) (spec : option nat) (cont : nat -> bool) : bool :=
-  match code, spec with
-  | ROk (Some k), Some k' => Nat.eqb k k' && cont k
-  | ROk None, None => true
-  | _, _ => false
-  end.
-
-(** *** the keys of the record the code builds are determined by the two field lists *)
-Definition kadd (ks : list str) (k : str) : list str := if mem k ks then ks else ks ++ [k].
-
-Fixpoint rec_keys (rfs wfs : list field) (ks : list str) : list str :=
-  match wfs with
-  | [] => ks
-  | wf :: wfs => match reader_field rfs (fname wf) with
-                 | Some rf => rec_keys rfs wfs (kadd ks (fname rf))
-                 | None => rec_keys rfs wfs ks
-                 end
-  end.
-
-Definition guard_ok (rfs wfs : list field) : bool :=
-  let ks := rec_keys rfs wfs [] in
-  let tbl := field_table rfs in
-  (len tbl >? len ks) || forallb (fun e => mem (fst e) ks) tbl.
-
 (** the JSON defaults of the reader's fields are well-formed defaults of their types *)
 Definition defaults_ok_tbl (re : env) (tbl : list (str * field)) : bool :=
   forallb (fun e => match fdefault (snd e) with
@@ -1005,18 +963,13 @@ Definition defaults_ok_tbl (re : env) (tbl : list (str * field)) : bool :=
                     | None => true end) tbl.
 Definition defaults_ok (re : env) (rfs : list field) : bool := defaults_ok_tbl re (field_table rfs).
 
-Definition accept_ok (we re : env) (w r : schema) : bool :=
-  match match_top we re w r with
-  | ROk _ => smatch we re true w r
-  | RErrResolution => negb (smatch we re true w r)
-  | _ => false
-  end.
-
 Definition truthy_ok (r : schema) : bool := match r with SUnion [] => false | _ => true end.
 
-(** *** the agreement zone: every decision the code takes on the way coincides with the specification's
-    (the verdicts of match_schemas / match_types, the reader-union branch picked), no empty-string enum default,
-    no empty reader union, well-formed JSON defaults. *)
+(** *** the agreement zone.  It follows the SPECIFICATION's own traversal of the two schemas (which reader branch
+    [spec_idx] picks, which pairs [smatch]) and asks, at the pairs reached, for the three things in which the code
+    still differs from the rules on well-formed input: the reader schema is not the empty union (which the code takes
+    for "no reader schema"), a reader enum's default is not the empty string (`if default:`), and the JSON defaults
+    of the reader's fields are well-formed (on a malformed one the code returns the JSON object, the rules nothing). *)
 Fixpoint agree (we re : env) (w r : schema) {struct w} : bool :=
   let sub (b : schema) : bool :=
     match w, b with
@@ -1027,7 +980,7 @@ Fixpoint agree (we re : env) (w r : schema) {struct w} : bool :=
         forallb (fun wf => match reader_field rfs (fname wf) with
                            | Some rf => agree we re (ftype wf) (ftype rf)
                            | None => true end) wfs
-        && defaults_ok re rfs && guard_ok rfs wfs
+        && defaults_ok re rfs
     | _, _ => true
     end in
   truthy_ok r &&
@@ -1035,20 +988,19 @@ Fixpoint agree (we re : env) (w r : schema) {struct w} : bool :=
   | SUnion wbs =>
       forallb (fun wb =>
         match r with
-        | SUnion rbs =>
-            pick_ok (reader_branch_idx (fun l => match_types_top we re l wb) rbs) (spec_idx we re wb rbs)
-                    (fun k => match nth_error rbs k with Some b => agree we re wb b | None => false end)
-        | _ => match match_types_top we re 2 wb r with
-               | ROk t => Bool.eqb t (smatch we re true wb r) && (if t then agree we re wb r else true)
-               | _ => false
-               end
+        | SUnion rbs => match spec_idx we re wb rbs with
+                        | Some k => match nth_error rbs k with Some b => agree we re wb b | None => true end
+                        | None => true
+                        end
+        | _ => if smatch we re true wb r then agree we re wb r else true
         end) wbs
   | _ =>
       match r with
-      | SUnion rbs =>
-          pick_ok (reader_branch_idx (fun l => match_types (pred (mfuel w)) we re l w) rbs) (spec_idx we re w rbs)
-                  (fun k => match nth_error rbs k with Some b => smatch we re true w b && sub b | None => false end)
-      | _ => accept_ok we re w r && (if smatch we re true w r then sub r else true)
+      | SUnion rbs => match spec_idx we re w rbs with
+                      | Some k => match nth_error rbs k with Some b => sub b | None => true end
+                      | None => true
+                      end
+      | _ => if smatch we re true w r then sub r else true
       end
   end.
 
